@@ -27,6 +27,7 @@ pub type LogCallback = extern "C" fn(*const c_char, *const c_void, std::ffi::c_s
 
 extern "C" {
     pub fn redirectionio_log_init_with_callback(callback: LogCallback, data: *const c_void);
+    pub fn redirectionio_log_init_stderr();
     pub fn redirectionio_action_json_deserialize(s: *mut c_char) -> *const Action;
     pub fn redirectionio_action_json_serialize(a: *mut Action) -> *const c_char;
     pub fn redirectionio_action_drop(a: *mut Action);
@@ -166,6 +167,11 @@ extern "C" fn log_callback(msg: *const c_char, data: *const c_void, level: std::
 }
 
 /// Install the callback logger once per process.
+/// Call the callback initialiser directly (no `Once` of ours): used by the probe that initialises loggers twice.
+pub fn init_log_callback_raw() {
+    unsafe { redirectionio_log_init_with_callback(log_callback, &LOG_DATA as *const u8 as *const c_void) }
+}
+
 pub fn install_log_callback() {
     static ONCE: std::sync::Once = std::sync::Once::new();
     ONCE.call_once(|| unsafe { redirectionio_log_init_with_callback(log_callback, &LOG_DATA as *const u8 as *const c_void) });
